@@ -6,8 +6,9 @@ from checklib import Scenario
 RULE = ("conventional files with comment blocks of any length before keys, trailing comments, multi-line values, sections, "
         "quoted values; read by absolute and by relative name; for every key the extended value (file, 1-based last line, "
         "comment before, comment after, value lines) is compared with the meaning the Coq grammar assigns (expected entries: "
-        "theorem C02_parse gives line/comments/values, C17_block their relation to the lines of the file); econf_getPath for "
-        "single files (absolute also for relative names) and \"\" for merged results; distinct by bytes")
+        "theorem C02_parse gives line/comments/values, C17_block their relation to the lines of the file); "
+        "files with values of several lines in every accepted shape (quoted with text, blanks or a comment behind the closing "
+        "quote; continuation lines with trailing blanks; blank-only lines below an entry) compared with the model; econf_getPath for single files (absolute also for relative names) and \"\" for merged results; distinct by bytes")
 
 def gen(rng, tier):
     n = 300 if tier == "quick" else 30000
@@ -31,6 +32,34 @@ def gen(rng, tier):
                      tags=("relative" if rel else "absolute",))
         s.expected = e; s.rel = rel
         res.append(s)
+    # values of several lines in every shape the reader accepts (beyond the conventional grammar): quoted values
+    # running over lines with text, blanks or a comment behind the closing quote, continuation lines with trailing
+    # blanks, lines of blanks only below an entry; here the proved model is the reference
+    for _ in range(n // 2):
+        cm = rng.choice([b"#", b";"]); dl = rng.choice([b"=", b"=", b":=", b" "])
+        d = dl[:1]
+        sp = lambda: rng.choice([b"", b" ", b"  ", b"\t", b" \t "])
+        lines = []
+        for i in range(rng.randrange(1, 6)):
+            k = b"k%d" % i
+            r = rng.random()
+            if r < 0.1: lines.append(b"[S%d]" % i)
+            if r < 0.4:
+                inner = rng.choice([b"line one", b"a", b"", b" x "]) ; more = [rng.choice([b"    line two", b"b ", b"\t c d", b""]) for _ in range(rng.randrange(1, 3))]
+                tail = rng.choice([b"", b" ", b"   ", b" " + cm + b" trailer", b"\t" + cm + b"t", b" junk"])
+                lines.append(k + sp() + d + sp() + b'"' + inner)
+                for m in more[:-1]: lines.append(m)
+                lines.append(more[-1] + b'"' + tail)
+            elif r < 0.8:
+                lines.append(k + sp() + d + sp() + rng.choice([b"first", b"v w", b""]) + sp())
+                for _ in range(rng.randrange(0, 3)):
+                    lines.append(rng.choice([b"    ", b"\t", b" "]) + rng.choice([b"second", b"x y", b"z"]) + rng.choice([b"", b" ", b"  \t", b" " + cm + b" c"]))
+                if rng.random() < 0.5: lines.append(rng.choice([b" ", b"   ", b"\t \t"]))
+            else:
+                lines.append(cm + b" note")
+                lines.append(k + d + b"plain" + sp())
+        data = b"\n".join(lines) + rng.choice([b"\n", b"\n", b"", b"\n   \n"])
+        res.append(Scenario([gens.parse_cmd(0, b"/g/m.conf", data, dl, cm), "getall 0", "dump 0"], tags=("multiline",)))
     return res
 
 def oracle(s, ilines):
